@@ -82,6 +82,9 @@ Proof.
     + destruct (match zlookup step _ with Some n => _ | None => None end) as [hd|].
       * destruct (Z.leb _ _); inversion H; subst; reflexivity.
       * inversion H; subst; reflexivity.
+    + destruct (match zlookup step _ with Some n => _ | None => None end) as [hd|].
+      * destruct (Z.leb _ _); inversion H; subst; reflexivity.
+      * inversion H; subst; reflexivity.
   - destruct (Nat.ltb _ _); inversion H; subst; reflexivity.
   - destruct dc; inversion H; subst; reflexivity.
   - destruct (find_waiter_idx _ _ _); inversion H; subst; reflexivity.
